@@ -3,6 +3,7 @@ CONSTANTS
   MaxReq = 2
   Pads = {0}
   NativeArmEmpty = TRUE
+  AllowLateRequest = FALSE
   EmitCases = FALSE
 SPECIFICATION Spec
 INVARIANTS TypeOK NoSilentDrop
